@@ -202,6 +202,31 @@ def run(ctx):
                 if nxt is not None and l == nxt:
                     keep_res.append(i)
                     nxt = next(it, None)
+            if prop == "C06":
+                # Restarts may legitimately change how a budgeted batch read chunks the stream
+                # (recovered blocks are sealed, the writer starts a fresh block), so what is
+                # compared is what the property names: per topic the delivered stream and the
+                # final count, not each intermediate result.
+                def delivered(lines, outs):
+                    d, lastc = {}, {}
+                    for l, o in zip(lines, outs):
+                        t = l.split()
+                        if (t[0] == "R" and t[2] == "1") or (t[0] == "BR" and t[3] == "1" and t[4] == "-"):
+                            o = G.canon_impl(o)
+                            toks = [o] if o.startswith("e:") else ([x for x in o[1:-1].split(";") if x] if o.startswith("[") else [])
+                            d.setdefault(t[1], []).extend(toks)
+                        elif t[0] == "C":
+                            lastc[t[1]] = o
+                    return d, lastc
+                da, ca = delivered(ce, keep_res)
+                db, cb = delivered(ce, ioe)
+                if da != db or ca != cb:
+                    ne += 1
+                    failures.append(dict(kind="acceptor", acceptor="erasure", classes=sorted(classes_of_case(c, B, MA)),
+                                         case_lines=c, with_restarts=dict(delivered=da, final_counts=ca),
+                                         without_restarts=dict(delivered=db, final_counts=cb),
+                                         what="restarts changed the delivered stream or the final counts"))
+                continue
             for j, (l, a, b) in enumerate(zip(ce, keep_res, ioe)):
                 if G.canon_impl(a) != G.canon_impl(b):
                     ne += 1
